@@ -109,6 +109,23 @@ Theorem oneshot_removed_repeated_rescheduled :
 Proof. exact batch_expiry_lemma. Qed.
 Print Assumptions oneshot_removed_repeated_rescheduled.
 
+(** Starting a paused context enqueues a new batch (at the current height) only when NEITHER the
+    expiry of a batch NOR a next batch is registered for it; otherwise the new-batch queue and its
+    height markers are exactly as before — a batch already scheduled is neither moved nor
+    duplicated (pause -> start in the gap between the expiry of batch n and the scheduled height
+    of batch n+1 does not create a second stream of batches).  Over histories this is the third
+    part of [active_requests_belong_to_the_running_batch]: every new-batch entry agrees with the
+    one height marker of its context. *)
+Theorem start_keeps_schedule :
+  forall s id cons s',
+    k_start s id cons = Okk s' ->
+    (has id (expmark s) = true \/ has id (newmark s) = true -> newq s' = newq s /\ newmark s' = newmark s)
+    /\ (has id (expmark s) = false -> has id (newmark s) = false ->
+        newq s' = q_add (height s, id) (newq s) /\ newmark s' = set id (height s) (newmark s))
+    /\ expq s' = expq s /\ expmark s' = expmark s /\ reqs s' = reqs s /\ g_batches s' = g_batches s.
+Proof. exact start_keeps_schedule_lemma. Qed.
+Print Assumptions start_keeps_schedule.
+
 Theorem only_consumer_controls :
   forall c s txh m s',
     exec_msg c s txh m = Okk s' ->
@@ -176,3 +193,17 @@ Proof. vm_compute. repeat split; try reflexivity. eexists. reflexivity. Qed.
 Example c08_fresh_history_satisfiable :
   fresh_history ex_cfg (init 1 1000 ex_l0) ex_hist /\ fresh_history ex_cfg (init 1 1000 ex_l0) ex_hist2.
 Proof. split; apply fresh_historyb_ok; vm_compute; reflexivity. Qed.
+
+(** pause -> start in the gap (timeout 3, frequency 10: batch at 1, expiry at 4, pause at 6,
+    start at 7): the batches still start at heights 1, 11, 21 and nowhere else *)
+Definition ex_hist3 : list step :=
+  [ Tx 11 (MDefine 0 0 true);
+    Tx 12 (MBind 0 2 0 1000 (0, 10, [], []) 1 true 0);
+    Tx 14 (MCall 0 [2] 5 true 0 100000 3 true 10 (-1)) ]
+  ++ repeat (EndBlock 5) 5 ++ [Tx 15 (MPause (14, 0) 5); EndBlock 5; Tx 16 (MStart (14, 0) 5)] ++ repeat (EndBlock 5) 18.
+
+Example c08_gap_nonvacuous :
+  let s := run ex_cfg (init 1 1000 ex_l0) ex_hist3 in
+  g_batches s = [((14, 0), 1, 1); ((14, 0), 2, 11); ((14, 0), 3, 21)] /\ height s = 25
+  /\ fresh_history ex_cfg (init 1 1000 ex_l0) ex_hist3.
+Proof. split; [vm_compute; reflexivity|]. split; [vm_compute; reflexivity|]. apply fresh_historyb_ok. vm_compute. reflexivity. Qed.
